@@ -73,7 +73,7 @@ def programs(ctx):
     for (u, v) in (('a', 'b'), ('ka', 'a2'), ('p', 'a'), ('Z2', 'd'), ('tc', 'tk'), ('tc', 'tc')):
         p.unit(1, u)
         p.unit(2, v)
-        for c in (['eq', 'ne'] if u[0] == 't' and u != v else CMPS):
+        for c in (['eq', 'ne'] if u[0] == 't' else CMPS):
             p.cmp(c, 1, 2)
     progs.append(p.d())
     # table-converted type: comparison through the affine conversion (C14 shares this)
